@@ -11,6 +11,7 @@ MODULES = [
     'contracts.chain',
     'contracts.config',
     'contracts.helpers',
+    'contracts.runinfo',
 ]
 
 
@@ -27,7 +28,11 @@ class _Lazy(dict):
         from contracts import integration
         extra = [integration.make(prop)] if prop in integration.SCENARIOS else []
         table = {'C06': [s.c06_roundtrip], 'C17': [s.c17_parallel_map], 'C14': [s.c14_caches], 'C16': [s.c16_cached], 'C11': [s.c11_placeholders]}
-        return table.get(prop, []) + extra
+        lem = []
+        if prop == 'C03':
+            from contracts import lemmas
+            lem = [lemmas.lean_c03]
+        return table.get(prop, []) + extra + lem
 
 
 EXTRA_CHECKS = _Lazy()
